@@ -1388,7 +1388,6 @@ func ruleK6(c *Ctx) {
 	}
 }
 
-
 // passThroughParam: the index of the parameter that every return of f hands back as its single
 // result, or −1.
 func passThroughParam(f *ssa.Function) int {
